@@ -1,6 +1,6 @@
 """C20 -- unber and enber are mutually inverse; unber's printed structure agrees
 with an independent TLV parse; unber is safe on arbitrary input."""
-import os, random, re, subprocess
+import glob, os, random, re, subprocess
 from concurrent.futures import ThreadPoolExecutor
 from .. import build, core, drv
 from ..asn import der, gen
@@ -118,6 +118,10 @@ def run(tier, seed):
                b"\x18\x0f20370802121739Z", b"\x17\x0d490915144649Z", b"\x0c\x04h\xc3\xa9!", b"\x16\x00", b"\x03\x02\x07\x80", b"\x0a\x01\x05"):
         corpus.append(("printed-values", tl))
         corpus.append(("printed-values", b"\xa3" + bytes([len(tl)]) + tl))
+    # BER produced by other implementations: the sample PDUs shipped with the examples (an X.509 certificate, an LDAP message, ...)
+    for f_ in sorted(glob.glob(os.path.join(tc.repo, "examples", "sample.source.*", "sample-*.[bd]er"))):
+        with open(f_, "rb") as fh:
+            corpus.append(("shipped-sample", fh.read()))
     # deep but reasonable nesting
     for depth in (10, 50, 200):
         corpus.append(("nest%d" % depth, b"".join(b"\x30\x80" for _ in range(depth)) + b"\x05\x00" + b"\0\0" * depth))
